@@ -273,10 +273,12 @@ def _m_seq(items, i, s, pos, end, st, k):
             yield from _m_seq(items, i + 1, s, pos + 1, end, st, k)
         else:
             cur = st.cons.get(pos)
+            if cur is None:
+                cur = _DOM.get(c.get_id())
             nm = node.a if cur is None else cur.inter(node.a)
             if not nm:
                 return
-            if cur is not None and nm == cur:
+            if cur is not None and nm == cur and pos in st.cons:
                 yield from _m_seq(items, i + 1, s, pos + 1, end, st, k)
             else:
                 nc = dict(st.cons)
@@ -353,6 +355,8 @@ def _require(s, pos, mask, st, k):
             yield from k(st)
         return
     cur = st.cons.get(pos)
+    if cur is None:
+        cur = _DOM.get(c.get_id())
     nm = mask if cur is None else cur.inter(mask)
     if not nm:
         return
@@ -372,7 +376,13 @@ def _subsumed(cons, earlier):
     return True
 
 
-def _candidates(items, s, pos, end, full):
+_DOM = {}
+
+
+def _candidates(items, s, pos, end, full, dom=None):
+    """dom: {var id: Mask} known supersets of the symbolic characters' values on this path"""
+    global _DOM
+    _DOM = dom or {}
     if full:
         def final(p, t):
             if p == end:
@@ -413,8 +423,24 @@ def _decision_list(cands, s):
             forms[sig] = []
             order.append(sig)
         forms[sig].append(first)
-    return [(sig, z3.simplify(z3.Or(*forms[sig]) if len(forms[sig]) > 1 else forms[sig][0]))
-            for sig in order]
+    out = []
+    for sig in order:
+        # per-variable supersets implied by "this signature is the result"
+        hint = None
+        for sg, cons in cands:
+            if sg != sig:
+                continue
+            cur = {}
+            for p, m in cons.items():
+                cur[s[p].get_id()] = (s[p], m)
+            if hint is None:
+                hint = cur
+            else:
+                hint = {vid: (v, m.union(cur[vid][1])) for vid, (v, m) in hint.items()
+                        if vid in cur}
+        out.append((sig, z3.simplify(z3.Or(*forms[sig]) if len(forms[sig]) > 1 else forms[sig][0]),
+                    hint or None))
+    return out
 
 
 _DECISIONS = {}
@@ -423,19 +449,33 @@ _KEEP = []
 
 def _decide(pat, items, s, pos, end, full):
     """fork once per distinct signature, in priority order; returns signature or None"""
-    key = (pat, pos, end, full, tuple(c if isinstance(c, int) else -1 - c.get_id() for c in s))
+    e = eng()
+    edom = e.dom
+    dom = {}
+    kk = []
+    for c in s:
+        if isinstance(c, int):
+            kk.append(c)
+        else:
+            cid = c.get_id()
+            d = edom.get(cid)
+            if d is not None:
+                dom[cid] = d[1]
+                kk.append((cid, d[1]))
+            else:
+                kk.append(-1 - cid)
+    key = (pat, pos, end, full, tuple(kk))
     dl = _DECISIONS.get(key)
     if dl is None:
-        cands = _candidates(items, s, pos, end, full)
+        cands = _candidates(items, s, pos, end, full, dom)
         dl = _decision_list(cands, s) if cands else []
         if len(_DECISIONS) > 300000:
             _DECISIONS.clear()
             del _KEEP[:]
         _DECISIONS[key] = dl
         _KEEP.append(list(s))   # keep the terms alive so that ids stay unique
-    e = eng()
-    for sig, f in dl:
-        if e.branch(f):
+    for sig, f, hint in dl:
+        if e.branch(f, hint):
             return sig
     return None
 
